@@ -219,6 +219,7 @@ def exec_ops(ops: List[Dict[str, Any]]) -> Dict[str, Any]:
     asts: Dict[int, Any] = {}
     progs: Dict[int, Any] = {}
     records: List[Dict[str, Any]] = []
+    fmaps: List[Tuple[Dict[str, Any], Dict[str, int]]] = []  # the caller's function mappings
     for op in ops:
         kind = op["op"]
         rec: Dict[str, Any] = {"op": kind}
@@ -249,6 +250,8 @@ def exec_ops(ops: List[Dict[str, Any]]) -> Dict[str, Any]:
                 records.append(rec)
                 continue
             functions = hostfuncs.materialise(op["functions"])
+            if isinstance(functions, dict) and not any(functions is m for m, _ in fmaps):
+                fmaps.append((functions, {k: id(v) for k, v in functions.items()}))
 
             def fn(env: Any = env, ast: Any = ast, functions: Any = functions) -> Any:
                 return env.program(ast, functions=functions)
@@ -301,6 +304,12 @@ def exec_ops(ops: List[Dict[str, Any]]) -> Dict[str, Any]:
             leaked = kit.host_leaks(ev.base_functions)
             if leaked:
                 rec["i1"] = leaked[:8]
+        for m, snap in fmaps:
+            now_m = {k: id(v) for k, v in m.items()}
+            if now_m != snap:
+                rec["fmap"] = sorted(set(now_m.items()) ^ set(snap.items()))[:4]
+                snap.clear()
+                snap.update(now_m)  # report a modification once, at the operation that made it
         rec["state"] = _state_fp(progs)
         records.append(rec)
     return {"records": records}
@@ -448,6 +457,10 @@ def execute(trace: Dict[str, Any], timeout: float = 60.0) -> Dict[str, Any]:
             violations.append({"oracle": "O2-bindings-modified", "op_index": i, "op": kind,
                                "runner": _runner_of(ops, i), "detail": rec["o2"],
                                "sig": {"oracle": "O2-bindings-modified", "op": kind}})
+        if "fmap" in rec:
+            violations.append({"oracle": "O2f-functions-mapping-modified", "op_index": i, "op": kind,
+                               "runner": _runner_of(ops, i), "detail": [k for k, _ in rec["fmap"]],
+                               "sig": {"oracle": "O2f-functions-mapping-modified", "op": kind}})
         if "i1" in rec:
             violations.append({"oracle": "I1-host-function-in-base-functions", "op_index": i, "op": kind,
                                "runner": _runner_of(ops, i), "detail": rec["i1"],
